@@ -90,6 +90,7 @@ type rCase struct {
 	build      func(wrap func(api.RateFunction) api.RateFunction) (*api.Trigger, error)
 	bodyMaxUs  int
 	failEvery  int
+	failEarly  bool // planned failures are marked at the START of the body (the flag must survive until the body ends)
 	panicEvery int
 	labels     map[string]string
 	opts       func(*options.RunOptions)
@@ -396,6 +397,9 @@ func runOne(c *ctx, rc rCase, m *metrics.Metrics) rTrace {
 				}
 				rec.add(rEv{K: "end", A: id, B: h, C: rec.us(), D: out})
 			}()
+			if rc.failEarly && out == 1 && !pan {
+				t.Fail()
+			}
 			if rc.cfg.Rendezvous {
 				if arrived.Add(1) >= int64(rc.cfg.Conc) {
 					rvOnce.Do(func() { close(rvDone) })
@@ -842,7 +846,8 @@ func buildCases(c *ctx) []rCase {
 					return nil, err
 				}
 				return b.New(b.Flags)
-			}, bodyMaxUs: bodyUs, envKeys: keys, stageEnv: stageEnv, failEvery: 8,
+			}, bodyMaxUs: bodyUs, envKeys: keys, stageEnv: stageEnv, failEvery: map[bool]int{false: 8, true: 2}[name == "file-overlap"],
+			failEarly: name == "file-overlap",
 			opts: func(o *options.RunOptions) {}})
 	}
 	fileCase("file-constant-users-constant", `scenario: scn
@@ -873,6 +878,31 @@ stages:
   rate: 2/20ms
 `, 3, []string{"VERIF_STAGE", "VERIF_A", "VERIF_DEF", "VERIF_FAST"},
 		[]string{"VERIF_STAGE=one;VERIF_A=a1", "VERIF_STAGE=two;VERIF_FAST=1", "VERIF_DEF=dflt"}, 5000*ms, 6, 60000)
+	// iterations still in flight when the next stage builds its pool (bodies up to 140 ms, stages of 100 ms),
+	// every second one failing from its first statement: each is reported by its own outcome
+	for k := 0; k < c.pick(2, 6); k++ {
+		fileCase("file-overlap", `scenario: scn
+limits:
+  max-duration: 5s
+  concurrency: 4
+  max-iterations: 0
+  ignore-dropped: true
+default:
+  mode: constant
+  distribution: none
+  jitter: 0
+stages:
+- duration: 100ms
+  rate: 2/20ms
+- duration: 100ms
+  rate: 2/20ms
+- duration: 100ms
+  mode: users
+  concurrency: 4
+- duration: 100ms
+  rate: 2/20ms
+`, 4, nil, []string{"", "", "", ""}, 5000*ms, 4, 140000)
+	}
 	fileCase("file-cut-short", `scenario: scn
 limits:
   max-duration: 220ms
